@@ -13,7 +13,7 @@ BASE_NOTE = ("Trusted base: the harness (mvf/coop.py cooperative scheduler, "
 
 CHECKS = {
  'C01': ('exploration',
-         "Held on the executions explored: generated direct workflows (forks, full joins, guards, on-success / on-error / on-complete routes, task-defaults handlers, fail / succeed / noop commands, failing expressions in input / publish / transitions), fork-join shapes with dead chains and dead cycles, bounded cycles driven by a published counter, reverse (requires) graphs and a family with partial joins / merges / commands anywhere; several action-result assignments and delivery orders (fifo, lifo, random, PCT, starvation of jobs / post-commit operations), both schedulers.  Deciding monitors: quiescence (after everything in flight and three integrity-check periods: every execution final, no task of a naturally finished workflow unfinished), exception type (only declared error types leave engine entry points, post-commit operations, scheduled jobs), and on the deterministic fragment an executable reference semantics written from the language documentation (mvf/ref.py): workflow state, multiset of task executions with states, the input each action received, which actions ran and the evaluated output must be equal to the reference's.",
+         "Held on the executions explored: generated direct workflows (forks, full joins, guards, on-success / on-error / on-complete routes, task-defaults handlers, fail / succeed / noop commands, failing expressions in input / publish / transitions), fork-join shapes with dead chains and dead cycles, bounded cycles driven by a published counter, reverse (requires) graphs, a family with partial joins / merges / commands anywhere, and a hostile-values family (35 typed positions of the language - policy parameters, with-items collections, concurrency, dynamic names, inputs, guards, published / output values - fed through input, environment, published variables and task results with values of every JSON type and far outside the numeric domain; universal monitors only); several action-result assignments and delivery orders (fifo, lifo, random, PCT, starvation of jobs / post-commit operations), both schedulers.  Deciding monitors: quiescence (after everything in flight and three integrity-check periods: every execution final, no task of a naturally finished workflow unfinished), exception type (only declared error types leave engine entry points, post-commit operations, scheduled jobs), and on the deterministic fragment an executable reference semantics written from the language documentation (mvf/ref.py): workflow state, multiset of task executions with states, the input each action received, which actions ran and the evaluated output must be equal to the reference's.",
          "runtime monitoring: reference-model monitor (independent executable semantics of the workflow language) over recorded final rows and ACTION_RUN events + quiescence / exception-type trace monitors, under schedule perturbation"),
  'C02': ('exploration',
          "Held on the executions explored: for each generated deterministic-fragment program (and bundled definitions) a canonical fifo run and perturbed runs (other schedules incl. PCT/delay/starvation with yield points at transaction entry, early clock advances, other uuid seed, spec caches dropped after every step, other scheduler implementation, dfs over all unit orders of small programs) must have equal normal forms; icontract contracts on merge_context_by_version / _rearrange_commands evaluated on the engine's real arguments. Warm-process perturbation: the same definitions ran before in the same engine process with other input (database wiped, in-memory caches kept).",
